@@ -160,6 +160,10 @@ class Param():
         self.cf.disconnected.add_callback(self._disconnected)
         self.cf.connection_requested.add_callback(self._connection_requested)
 
+        # One-shot handlers of outstanding misc requests: (command, param id, handler), in request order
+        self._misc_reply_handlers = []
+        self.cf.add_port_callback(CRTPPort.PARAM, self._misc_reply_cb)
+
         self.all_updated = Caller()
         self.is_updated = False
         self._initialized = Event()
@@ -303,6 +307,27 @@ class Param():
         self.toc = Toc()
         self.values = {}
 
+        # Requests that were not answered will not be answered any more
+        self._misc_reply_handlers = []
+
+    def _call_on_misc_reply(self, command, ident, handler):
+        """
+        Call handler(pk) once, with the reply to the misc request (command, ident) that is
+        about to be queued. Requests are answered in the order they are sent, so replies to
+        identical outstanding requests are handed out in request order, one reply per request.
+        """
+        self._misc_reply_handlers.append((command, ident, handler))
+
+    def _misc_reply_cb(self, pk):
+        if pk.channel != MISC_CHANNEL or len(pk.data) < 3:
+            return
+        reply_to = (pk.data[0], struct.unpack('<H', pk.data[1:3])[0])
+        for entry in list(self._misc_reply_handlers):
+            if entry[:2] == reply_to:
+                self._misc_reply_handlers.remove(entry)
+                entry[2](pk)
+                return
+
     def request_param_update(self, complete_name):
         """
         Request an update of the value for the supplied parameter.
@@ -392,20 +417,16 @@ class Param():
         element = self.toc.get_element_by_complete_name(complete_name)
 
         def new_packet_cb(pk):
-            if pk.channel == MISC_CHANNEL and pk.data[0] == MISC_GET_DEFAULT_VALUE and \
-                    struct.unpack('<H', pk.data[1:3])[0] == element.ident:
-                # The error reply is exactly command, id and the error code; a value whose
-                # first byte happens to equal ENOENT is longer (except for one-byte types)
-                if len(pk.data) == 4 and pk.data[3] == errno.ENOENT:
-                    callback(complete_name, None)
-                    self.cf.remove_port_callback(CRTPPort.PARAM, new_packet_cb)
-                    return
+            # The error reply is exactly command, id and the error code; a value whose
+            # first byte happens to equal ENOENT is longer (except for one-byte types)
+            if len(pk.data) == 4 and pk.data[3] == errno.ENOENT:
+                callback(complete_name, None)
+                return
 
-                default_value, = struct.unpack(element.pytype, pk.data[3:])
-                callback(complete_name, default_value)
-                self.cf.remove_port_callback(CRTPPort.PARAM, new_packet_cb)
+            default_value, = struct.unpack(element.pytype, pk.data[3:])
+            callback(complete_name, default_value)
 
-        self.cf.add_port_callback(CRTPPort.PARAM, new_packet_cb)
+        self._call_on_misc_reply(MISC_GET_DEFAULT_VALUE, element.ident, new_packet_cb)
 
         pk = CRTPPacket()
         pk.set_header(CRTPPort.PARAM, MISC_CHANNEL)
@@ -426,13 +447,10 @@ class Param():
             raise AttributeError(f"Param '{complete_name}' is not persistent")
 
         def new_packet_cb(pk):
-            if pk.channel == MISC_CHANNEL and pk.data[0] == MISC_PERSISTENT_CLEAR and \
-                    struct.unpack('<H', pk.data[1:3])[0] == element.ident:
+            if callback is not None:
                 callback(complete_name, pk.data[3] == 0)
-                self.cf.remove_port_callback(CRTPPort.PARAM, new_packet_cb)
 
-        if callback is not None:
-            self.cf.add_port_callback(CRTPPort.PARAM, new_packet_cb)
+        self._call_on_misc_reply(MISC_PERSISTENT_CLEAR, element.ident, new_packet_cb)
 
         pk = CRTPPacket()
         pk.set_header(CRTPPort.PARAM, MISC_CHANNEL)
@@ -456,13 +474,10 @@ class Param():
             raise AttributeError(f"Param '{complete_name}' is not persistent")
 
         def new_packet_cb(pk):
-            if pk.channel == MISC_CHANNEL and pk.data[0] == MISC_PERSISTENT_STORE and \
-                    struct.unpack('<H', pk.data[1:3])[0] == element.ident:
+            if callback is not None:
                 callback(complete_name, pk.data[3] == 0)
-                self.cf.remove_port_callback(CRTPPort.PARAM, new_packet_cb)
 
-        if callback is not None:
-            self.cf.add_port_callback(CRTPPort.PARAM, new_packet_cb)
+        self._call_on_misc_reply(MISC_PERSISTENT_STORE, element.ident, new_packet_cb)
 
         pk = CRTPPacket()
         pk.set_header(CRTPPort.PARAM, MISC_CHANNEL)
@@ -491,31 +506,27 @@ class Param():
             raise AttributeError(f"Param '{complete_name}' is not persistent")
 
         def new_packet_cb(pk):
-            if pk.channel == MISC_CHANNEL and pk.data[0] == MISC_PERSISTENT_GET_STATE and \
-                    struct.unpack('<H', pk.data[1:3])[0] == element.ident:
-                if pk.data[3] == errno.ENOENT:
-                    callback(complete_name, None)
-                    self.cf.remove_port_callback(CRTPPort.PARAM, new_packet_cb)
-                    return
+            if pk.data[3] == errno.ENOENT:
+                callback(complete_name, None)
+                return
 
-                is_stored = pk.data[3] == 1
-                if not is_stored:
-                    default_value, = struct.unpack(element.pytype, pk.data[4:])
-                else:
-                    # Remove little-endian indicator ('<')
-                    just_type = element.pytype[1:]
-                    default_value, stored_value = struct.unpack(f'<{just_type * 2}', pk.data[4:])
+            is_stored = pk.data[3] == 1
+            if not is_stored:
+                default_value, = struct.unpack(element.pytype, pk.data[4:])
+            else:
+                # Remove little-endian indicator ('<')
+                just_type = element.pytype[1:]
+                default_value, stored_value = struct.unpack(f'<{just_type * 2}', pk.data[4:])
 
-                callback(complete_name,
-                         PersistentParamState(
-                             is_stored,
-                             default_value,
-                             stored_value if is_stored else None
-                         )
-                         )
-                self.cf.remove_port_callback(CRTPPort.PARAM, new_packet_cb)
+            callback(complete_name,
+                     PersistentParamState(
+                         is_stored,
+                         default_value,
+                         stored_value if is_stored else None
+                     )
+                     )
 
-        self.cf.add_port_callback(CRTPPort.PARAM, new_packet_cb)
+        self._call_on_misc_reply(MISC_PERSISTENT_GET_STATE, element.ident, new_packet_cb)
         pk = CRTPPacket()
         pk.set_header(CRTPPort.PARAM, MISC_CHANNEL)
         pk.data = struct.pack('<BH', MISC_PERSISTENT_GET_STATE, element.ident)
